@@ -10,15 +10,21 @@ Ops (see `LP.TM.Op`):
 * `t now=<ns>`                                                         → `ok`
 * `give coll=<c> to=<a> id=<n|->`                                      → `ok <id>` | `err`
 * `xfer caller=<a> coll=<c> id=<n> to=<a>`                             → `ok|err own=<a|0>`
-* `approve caller=<a> coll=<c> id=<n> spender=<a>`                     → `ok|err own=<a|0>`
+* `approve caller=<a> coll=<c> id=<n> spender=<a> until=<ns|->`, `revoke caller=<a> coll=<c> id=<n> spender=<a>`,
+  `approve_all caller=<a> coll=<c> operator=<a> until=<ns|->`, `revoke_all caller=<a> coll=<c> operator=<a>`
+                                                                         → `ok|err own=<a|0>` (`own=0` for the `_all` ops)
 * `send caller=<a> coll=<c> id=<n> to=<a> rcpt=<a|-> bad=<0|1|2> picked=<n|->`
 * `recv caller=<a> sender=<a> id=<n> rcpt=<a|-> bad=<0|1|2> picked=<n|->`
       → `ok|err m=<minted id|-> dep=<c:n,…> cnt=<n> left=<n> own=<a|0> num=<n> tnum=<n> town=<a|0>`
-* `mint_to caller=<a> rcpt=<a> pay=<n> picked=<n|->`, `mint_for caller=<a> id=<n> rcpt=<a> pay=<n>`
-      → same shape (own/num are `0`)
-* `set_start caller=<a> t=<ns>` → `ok|err start=<ns>`;  `set_limit caller=<a> limit=<n>` → `ok|err limit=<n>`
-* `purge caller=<a>`, `burn_remaining caller=<a>` → `ok|err left=<n>`
-* `obs users=<a,…> maxid=<n>` → full dump
+* `mint_to caller=<a> rcpt=<a> pay=<n> w=<0|1> picked=<n|->`, `mint_for caller=<a> id=<n> rcpt=<a> pay=<n> w=<0|1>`
+      → same shape (own/num are `0`) ` ## exp=<ok|err>`
+* `set_start caller=<a> t=<ns> w=<0|1>` → `ok|err start=<ns> ## exp=…`;  `set_limit caller=<a> limit=<n> w=<0|1>` → `ok|err limit=<n> ## exp=…`
+* `purge caller=<a> w=<0|1>`, `burn_remaining caller=<a> w=<0|1>` → `ok|err left=<n> ## exp=…`
+* `noise what=<free text> … w=<0|1>` → `ok|err start=<ns> limit=<n> left=<n> tnum=<n>`
+* `obs users=<a,…> maxid=<n>` → full dump ` ## ids=<mintable ids>`
+
+`w` = the implementation's outcome (checked witness, see `Model/TokenMerge.lean`); the part after ` ## ` is outside the
+projection of C17 (`LP.TM.expected`: the verdict of the rules owned by C02/C04/C05/C01) — differences there are DRIFT.
 -/
 open LP LP.Proto LP.TM
 
@@ -47,7 +53,7 @@ def obsLine (s : State) (users : List Nat) (maxid : Nat) : String :=
   let us := users.map fun u => s!"u{u}={s.mintCount u}/{renderPairs (deposited s u)}"
   let cs := s.colls.map fun c => s!"c{c}={s.srcNum c}/{renderNats ((range1 maxid).map fun id => (s.srcOwner c id).getD 0)}"
   let tg := renderNats ((range1 s.numTokens).map fun id => (s.tgtOwner id).getD 0)
-  s!"obs start={s.start} limit={s.perAddressLimit} left={s.mintable.length} ids={renderNats (sortDedup s.mintable)} tnum={s.tgtNum} {String.intercalate " " us} {String.intercalate " " cs} tgt={tg}"
+  s!"obs start={s.start} limit={s.perAddressLimit} left={s.mintable.length} tnum={s.tgtNum} {String.intercalate " " us} {String.intercalate " " cs} tgt={tg} ## ids={renderNats (sortDedup s.mintable)}"
 
 def parseHeader (ws : List String) : Option State := do
   let self ← natKv ws "self"
@@ -62,12 +68,20 @@ def parseHeader (ws : List String) : Option State := do
   let now ← natKv ws "now"
   pure (init self admin colls req start limit n maxlim price now)
 
+/-- ` ## exp=…`: what the rules outside C17's projection say about this op (nothing for ops they do not cover) -/
+def expS (s : State) (op : Op) : String :=
+  match expected s op with
+  | some b => s!" ## exp={okS b}"
+  | none => ""
+
 def depositLike (s : State) (op : Op) (r : Addr) (src : Option (Addr × Nat)) (picked : Option Nat) : State × String :=
   match step s op with
   | .ok s' =>
     let m := mintedId s s' picked
-    (s', s!"ok m={renderOpt m} {touched s' r src m}")
-  | .error _ => (s, s!"err m=- {touched s r src picked}")
+    (s', s!"ok m={renderOpt m} {touched s' r src m}{expS s op}")
+  | .error _ => (s, s!"err m=- {touched s r src picked}{expS s op}")
+
+def expKv (ws : List String) : Option (Option Nat) := optNatKv ws "until"
 
 def c17Step (st : Option State) (line : String) : Option State × String :=
   let ws := words line
@@ -98,9 +112,25 @@ def c17Step (st : Option State) (line : String) : Option State × String :=
         | .error _ => pure (s, s!"err own={oaddr (s.srcOwner c id)}")
       | some "approve" => do
         let a ← natKv ws "caller"; let c ← natKv ws "coll"; let id ← natKv ws "id"; let sp ← natKv ws "spender"
-        match step s (.approve a c id sp) with
+        let ex ← expKv ws
+        match step s (.approve a c id sp ex) with
         | .ok s' => pure (s', s!"ok own={oaddr (s'.srcOwner c id)}")
         | .error _ => pure (s, s!"err own={oaddr (s.srcOwner c id)}")
+      | some "revoke" => do
+        let a ← natKv ws "caller"; let c ← natKv ws "coll"; let id ← natKv ws "id"; let sp ← natKv ws "spender"
+        match step s (.revoke a c id sp) with
+        | .ok s' => pure (s', s!"ok own={oaddr (s'.srcOwner c id)}")
+        | .error _ => pure (s, s!"err own={oaddr (s.srcOwner c id)}")
+      | some "approve_all" => do
+        let a ← natKv ws "caller"; let c ← natKv ws "coll"; let o ← natKv ws "operator"; let ex ← expKv ws
+        match step s (.approveAll a c o ex) with
+        | .ok s' => pure (s', "ok own=0")
+        | .error _ => pure (s, "err own=0")
+      | some "revoke_all" => do
+        let a ← natKv ws "caller"; let c ← natKv ws "coll"; let o ← natKv ws "operator"
+        match step s (.revokeAll a c o) with
+        | .ok s' => pure (s', "ok own=0")
+        | .error _ => pure (s, "err own=0")
       | some "send" => do
         let a ← natKv ws "caller"; let c ← natKv ws "coll"; let id ← natKv ws "id"; let to ← natKv ws "to"
         let rc ← optNatKv ws "rcpt"; let bad ← natKv ws "bad"; let pk ← optNatKv ws "picked"
@@ -111,30 +141,40 @@ def c17Step (st : Option State) (line : String) : Option State × String :=
         pure (depositLike s (.receive a sd id rc (bad == 0) pk) (rc.getD sd) (some (a, id)) pk)
       | some "mint_to" => do
         let a ← natKv ws "caller"; let rc ← natKv ws "rcpt"; let pay ← natKv ws "pay"; let pk ← optNatKv ws "picked"
-        pure (depositLike s (.mintTo a rc pay pk) rc none pk)
+        let w ← natKv ws "w"
+        pure (depositLike s (.mintTo a rc pay (w != 0) pk) rc none pk)
       | some "mint_for" => do
         let a ← natKv ws "caller"; let id ← natKv ws "id"; let rc ← natKv ws "rcpt"; let pay ← natKv ws "pay"
-        pure (depositLike s (.mintFor a id rc pay) rc none (some id))
+        let w ← natKv ws "w"
+        pure (depositLike s (.mintFor a id rc pay (w != 0)) rc none (some id))
       | some "set_start" => do
-        let a ← natKv ws "caller"; let t ← natKv ws "t"
-        match step s (.setStart a t) with
-        | .ok s' => pure (s', s!"ok start={s'.start}")
-        | .error _ => pure (s, s!"err start={s.start}")
+        let a ← natKv ws "caller"; let t ← natKv ws "t"; let w ← natKv ws "w"
+        let op := Op.setStart a t (w != 0)
+        match step s op with
+        | .ok s' => pure (s', s!"ok start={s'.start}{expS s op}")
+        | .error _ => pure (s, s!"err start={s.start}{expS s op}")
       | some "set_limit" => do
-        let a ← natKv ws "caller"; let n ← natKv ws "limit"
-        match step s (.setLimit a n) with
-        | .ok s' => pure (s', s!"ok limit={s'.perAddressLimit}")
-        | .error _ => pure (s, s!"err limit={s.perAddressLimit}")
+        let a ← natKv ws "caller"; let n ← natKv ws "limit"; let w ← natKv ws "w"
+        let op := Op.setLimit a n (w != 0)
+        match step s op with
+        | .ok s' => pure (s', s!"ok limit={s'.perAddressLimit}{expS s op}")
+        | .error _ => pure (s, s!"err limit={s.perAddressLimit}{expS s op}")
       | some "purge" => do
-        let a ← natKv ws "caller"
-        match step s (.purge a) with
-        | .ok s' => pure (s', s!"ok left={s'.mintable.length}")
-        | .error _ => pure (s, s!"err left={s.mintable.length}")
+        let a ← natKv ws "caller"; let w ← natKv ws "w"
+        let op := Op.purge a (w != 0)
+        match step s op with
+        | .ok s' => pure (s', s!"ok left={s'.mintable.length}{expS s op}")
+        | .error _ => pure (s, s!"err left={s.mintable.length}{expS s op}")
       | some "burn_remaining" => do
-        let a ← natKv ws "caller"
-        match step s (.burnRemaining a) with
-        | .ok s' => pure (s', s!"ok left={s'.mintable.length}")
-        | .error _ => pure (s, s!"err left={s.mintable.length}")
+        let a ← natKv ws "caller"; let w ← natKv ws "w"
+        let op := Op.burnRemaining a (w != 0)
+        match step s op with
+        | .ok s' => pure (s', s!"ok left={s'.mintable.length}{expS s op}")
+        | .error _ => pure (s, s!"err left={s.mintable.length}{expS s op}")
+      | some "noise" => do
+        let w ← natKv ws "w"
+        let s' := step' s (.noise (w != 0))
+        pure (s', s!"{okS (w != 0)} start={s'.start} limit={s'.perAddressLimit} left={s'.mintable.length} tnum={s'.tgtNum}")
       | some "obs" => do
         let us ← natListKv ws "users"; let mx ← natKv ws "maxid"
         pure (s, obsLine s us mx)
